@@ -113,6 +113,26 @@ def annotated_laws():
             s[0].append(7)
         if A.s != norm(a):
             fails.append((a, "mutating .s result changed the state"))
+        # every other way the API hands out per-mode label lists: item access, iteration, slices
+        h0 = hash(A)
+        for i in range(len(a)):
+            A[i].append(8)
+        if A.s != norm(a) or hash(A) != h0:
+            fails.append((a, "mutating the list returned by state[i] changed the state"))
+            A = AnnotatedState([list(m) for m in a])
+        for m in A:
+            m.append(6)
+        if A.s != norm(a) or hash(A) != h0:
+            fails.append((a, "mutating the lists yielded by iteration changed the state"))
+            A = AnnotatedState([list(m) for m in a])
+        for m in A[0:len(a)].s:
+            m.append(5)
+        sl = A[0:len(a)]
+        for i in range(len(a)):
+            sl[i].append(4)
+        if A.s != norm(a) or hash(A) != h0:
+            fails.append((a, "mutating a slice of the state changed the state"))
+            A = AnnotatedState([list(m) for m in a])
         try:
             A.s = []
             fails.append((a, "setter accepted"))
@@ -138,12 +158,20 @@ def random_matrices():
     for seed in (0, 1, 2, 3, 7, 42, 2 ** 31 - 1):
         for N in (1, 2, 3, 4, 5):
             n += 1
-            u1, u2 = lw.random_unitary(N, seed=seed), lw.random_unitary(N, seed=seed)
-            if not np.array_equal(u1, u2):
-                fails.append(((seed, N), "random_unitary not reproducible"))
+            u1 = lw.random_unitary(N, seed=seed)
+            keep = u1.copy()
+            u1 *= 0.5                                   # the caller edits the returned matrix in place; the next seeded call must not be affected
+            u2 = lw.random_unitary(N, seed=seed)
+            u1 = keep
+            if u2 is u1 or not np.array_equal(u1, u2):
+                fails.append(((seed, N), "random_unitary not reproducible (or returns a shared array that a caller has edited)"))
             if u1.shape != (N, N) or not np.allclose(u1.conj().T @ u1, np.identity(N), atol=1e-9):
                 fails.append(((seed, N), "random_unitary not unitary"))
-            p1, p2 = lw.random_permutation(N, seed=seed), lw.random_permutation(N, seed=seed)
+            p1 = lw.random_permutation(N, seed=seed)
+            keepp = p1.copy()
+            p1 *= 0
+            p2 = lw.random_permutation(N, seed=seed)
+            p1 = keepp
             if not np.array_equal(p1, p2):
                 fails.append(((seed, N), "random_permutation not reproducible"))
             if sorted(map(tuple, p1.real.astype(int).tolist())) != sorted(map(tuple, np.identity(N, dtype=int).tolist())) or not np.allclose(p1.imag, 0):
